@@ -111,6 +111,10 @@ def run(ctx, config='rel-all'):
     # ---- R10 conversions from iterators take every item the iterator yields: a size_hint may size a reservation only
     from . import hinttaint
     hinttaint.check(ctx, db, 'R10', ('src/boxed.rs', 'src/collections/'))
+    # ---- R11 a Box is turned into an owning iterator only through the constructors whose invariants are checked (C13): a
+    # hand-made vec::IntoIter over a boxed slice miscounts zero-sized elements
+    from . import ownership
+    ownership.constructors(ctx, db, 'R11')
     # ---- R1 gating
     dc = [b for b in db.fn_bodies() if b['meta'].get('name') == 'downcast' and (b['meta'].get('impl_adt') or '').endswith('boxed::Box')]
     ctx.floor('R1.downcast', len(dc), 2, 'Box::downcast (dyn Any, dyn Any + Send)')
